@@ -52,6 +52,9 @@ def main(ctx):
         two = [s for s in scs if len(s["sc"]["frames"]) == 2]
         for s in one:
             jobs.append((s, [s["ends"][-1]]))
+            if p == "simple":           # the same personality configured by the other false values: an empty route path list, 0
+                for form in ("empty", "zero"):
+                    jobs.append((dict(s, sc=dict(s["sc"], pers=dict(s["sc"]["pers"], form=form))), [s["ends"][-1]]))
         for s in (rng.sample(two, 150) if two else []):
             jobs.append((s, [s["ends"][-1]]))
     # route texts: emitted once (any personality run prints them)
@@ -75,7 +78,7 @@ def main(ctx):
     lines = core.pmap(serverlib.exec_session, jobs, chunksize=8)
     for (s, sz), ln in zip(jobs, lines):
         f = s["sc"]["frames"][0]
-        ev.case(key=(s["sc"]["pers"]["k"], json.dumps(s["sc"]["pers"].get("segs")), json.dumps(s["fb"])),
+        ev.case(key=(s["sc"]["pers"]["k"], s["sc"]["pers"].get("form"), json.dumps(s["sc"]["pers"].get("segs")), json.dumps(s["fb"])),
                 nontrivial=f["wrap"] == "ucsend" and len(f["route"]) > 0)
     ln = lines[len(lines) // 3]
     ev.sample({"personality": ln["sc"]["pers"], "route": ln["sc"]["frames"][0]["route"], "wrap": ln["sc"]["frames"][0]["wrap"],
